@@ -28,7 +28,8 @@ def build_engine(src, variant, prec, extra_flags=(), extra_srcs=(), opt='-O1'):
     exe = os.path.join(outd, '%s-%s-%s-%s' % (os.path.basename(src)[:-2], variant, prec, key))
     if os.path.exists(exe):
         return exe
-    for old in glob.glob(os.path.join(outd, '%s-%s-%s-*' % (os.path.basename(src)[:-2], variant, prec))):
+    olds = sorted((o for o in glob.glob(os.path.join(outd, '%s-%s-%s-*' % (os.path.basename(src)[:-2], variant, prec))) if '.tmp' not in o), key=os.path.getmtime)
+    for old in olds[:-3]:
         try: os.unlink(old)
         except OSError: pass
     cmd = [cc, opt, '-g', '-w', '-fno-omit-frame-pointer', PREC[prec]] + hflags + list(extra_flags) + inc + \
